@@ -165,6 +165,81 @@ func run(id int, role string, g, m, buf, procs int, seed int64, reuse bool) *Rec
 	return rec
 }
 
+// successor: a logged-on session loses its connection without a Logout exchange; a new session on
+// the same counter and message store takes over. Whatever the first session left running must not
+// take numbers any more: the new session's messages are numbered consecutively.
+func successor(id int, role string) *Rec {
+	rec := &Rec{ID: id, Mode: "stress", Skip: true, Oracle: map[string]string{},
+		Case: fmt.Sprintf("role=%s successor session on the store of a session that lost its connection while logged on", role),
+		Tags: []string{"role=" + role, "successor"}}
+	st := memory.NewStorage()
+	l1, err := live.Start(live.Config{Role: role, Hb: 1, Buf: 10, Counter: st, Messages: st})
+	if err != nil {
+		rec.Impl = "setup failed: " + err.Error()
+		rec.Oracle["C05"] = "skip: setup failed"
+		return rec
+	}
+	if !l1.Logon(1) {
+		l1.Shutdown()
+		rec.Impl = "logon failed"
+		rec.Oracle["C05"] = "fail: logon exchange did not complete"
+		return rec
+	}
+	time.Sleep(200 * time.Millisecond)
+	_ = l1.Peer.Close() // the connection is lost; nobody says Logout
+	time.Sleep(300 * time.Millisecond)
+	l2, err := live.Start(live.Config{Role: role, Hb: 1, Buf: 10, Counter: st, Messages: st})
+	if err != nil {
+		l1.Shutdown()
+		rec.Impl = "second setup failed: " + err.Error()
+		rec.Oracle["C05"] = "skip: setup failed"
+		return rec
+	}
+	defer l1.Shutdown()
+	defer l2.Shutdown()
+	if !l2.Logon(1) {
+		rec.Impl = "second logon failed"
+		rec.Oracle["C05"] = "fail: logon exchange of the successor session did not complete"
+		return rec
+	}
+	stop := make(chan struct{})
+	go func() { // a live peer: the successor is never probed, it just heartbeats
+		for {
+			select {
+			case <-stop:
+				return
+			case <-time.After(400 * time.Millisecond):
+				_ = l2.Send(l2.PeerMsg("0", ""))
+			}
+		}
+	}()
+	for i := 0; i < 6; i++ {
+		time.Sleep(450 * time.Millisecond)
+		m := fixgen.NewMarketDataRequestReject()
+		m.SetMDReqID("s" + strconv.Itoa(i))
+		_ = l2.Sess.Send(m)
+	}
+	close(stop)
+	time.Sleep(150 * time.Millisecond)
+	msgs := l2.Snapshot()
+	rec.Size = len(msgs)
+	verdict := "ok"
+	last := 0
+	for i, mm := range msgs {
+		if i > 0 && mm.Seq != last+1 {
+			verdict = fmt.Sprintf("fail: the successor session's message %d follows %d (position %d of %d): numbers were taken that never reached its wire", mm.Seq, last, i, len(msgs))
+			break
+		}
+		last = mm.Seq
+	}
+	if len(msgs) < 6 {
+		verdict = fmt.Sprintf("fail: only %d messages of the successor session arrived", len(msgs))
+	}
+	rec.Oracle["C05"] = verdict
+	rec.Impl = fmt.Sprintf("messages=%d last=%d", len(msgs), last)
+	return rec
+}
+
 func main() {
 	seed := flag.Int64("seed", 1, "seed")
 	n := flag.Int("n", 6, "number of runs")
@@ -187,6 +262,13 @@ func main() {
 	bufs := []int{0, 1, 10}
 	procs := []int{1, 2, 16}
 	for i := *start; i < *start+*n; i++ {
+		if i%8 >= 6 {
+			r := successor(i, []string{"A", "I"}[i%2])
+			b, _ := json.Marshal(r)
+			out.Write(b)
+			out.WriteByte('\n')
+			continue
+		}
 		role := []string{"A", "I"}[i%2]
 		g := gs[(i/2)%3]
 		m := 400 / g
